@@ -283,6 +283,10 @@ def run(ctx):
             and any(strip(f) == ("attr", ("attr", ("param", alv.params[0]), "_protocol"), "alive") for f in fs)
     ctx.ob("C08.d", alv.qual, ok_a, "_alive is true only with an existing, alive protocol", func=alv.qual, file=file, construct="_alive",
            fail="_alive can be true without a protocol / with a dead one: send() would not reconnect")
+    # ---- C08.t4 "retransmission stops as soon as a response arrives" / "the next exchange succeeds" need every response that arrives -
+    # after garbage, split or coalesced - to be delivered: the reassembly premises of C04 are re-run here, not assumed
+    from . import c04
+    ctx.import_rules(c04, "t4")
     ctx.require_min("loops", 2)
     ctx.require_min("budgets", 7)
     ctx.require_min("failure_exits", 3)
